@@ -69,6 +69,9 @@ type c02Opts struct {
 	rejExt                   []asn1.ObjectIdentifier
 	ekus                     []x509.ExtKeyUsage
 	viaConfig                bool // build the validation options through LogConfig -> ValidateLogConfig -> setUpLogInfo
+	// cfgEKUs: the ext_key_usages names of the LogConfig when they are not simply the names of `ekus` — a list with "Any"
+	// in it switches the filter off, so `ekus` (what the oracle and the model apply) is empty then
+	cfgEKUs []string
 }
 
 // c02Case is one submission: universe of distinct certificates, pool, chain (index or -1 = unparsable DER).
@@ -368,6 +371,9 @@ func (k *c02Case) voptsViaConfig(o c02Opts) (CertValidationOpts, bool) {
 		RejectExpired: o.rejExp, RejectUnexpired: o.rejUnexp, AcceptOnlyCa: o.onlyCA}
 	for _, e := range o.ekus {
 		cfg.ExtKeyUsages = append(cfg.ExtKeyUsages, c02EKUNames[e])
+	}
+	if o.cfgEKUs != nil {
+		cfg.ExtKeyUsages = o.cfgEKUs
 	}
 	for _, id := range o.rejExt {
 		cfg.RejectExtensions = append(cfg.RejectExtensions, id.String())
@@ -1235,6 +1241,8 @@ func TestVerifC02(t *testing.T) {
 	c02Copies(e)
 	c02ConfigEKU(e)
 	c02ConfigRejectExt(e)
+	c02ConfigAnyEKU(e)
+	c02WallClock(e)
 	c02Incomplete(e)
 	c02PoisonFixed(e)
 	c02Fixed(e)
@@ -1410,6 +1418,66 @@ func c02ConfigEKU(e *c02Env) {
 		for _, want := range [][]x509.ExtKeyUsage{{x509.ExtKeyUsageServerAuth}, {x509.ExtKeyUsageServerAuth, x509.ExtKeyUsageClientAuth}, {x509.ExtKeyUsageCodeSigning}} {
 			e.eval(k, []string{leaf.label, fmt.Sprint("leaf EKUs ", leafEKU)}, c02Opts{ekus: want, viaConfig: true}, 1)
 			e.out.Count("mode:eku-filter-via-config")
+		}
+	}
+}
+
+// c02ConfigAnyEKU: ext_key_usages lists with "Any" in first, middle and last position, through the server's configuration
+// path: "Any" switches the EKU filter off whatever else is listed, so every leaf passes it.
+func c02ConfigAnyEKU(e *c02Env) {
+	keys := vKeys()
+	root := vIssue(vSpec{cn: "any root", key: keys[2], isCA: true, keyUsage: vCAUsage})
+	lists := [][]string{{"Any"}, {"Any", "ServerAuth"}, {"ServerAuth", "Any"}, {"ServerAuth", "Any", "TimeStamping"}, {"Any", "ClientAuth", "CodeSigning"},
+		{"CodeSigning", "OCSPSigning", "Any"}, {"Any", "Any", "ServerAuth"}}
+	for i, leafEKU := range [][]stdx509.ExtKeyUsage{{stdx509.ExtKeyUsageClientAuth}, {stdx509.ExtKeyUsageServerAuth}, {stdx509.ExtKeyUsageEmailProtection}, nil,
+		{stdx509.ExtKeyUsageAny}} {
+		leaf := vIssue(vSpec{cn: fmt.Sprintf("any leaf %d", i), key: keys[11], issuer: root, keyUsage: stdx509.KeyUsageDigitalSignature, ekus: leafEKU})
+		k := c02NewCase([]*vCert{root}, [][]byte{leaf.der})
+		for _, names := range lists {
+			o := c02Opts{cfgEKUs: names, viaConfig: true}
+			if _, ok := k.voptsViaConfig(o); !ok {
+				e.out.Fail(fmt.Sprintf("config ext_key_usages %v", names), "the configuration path refused a list of known usages")
+				continue
+			}
+			if !e.eval(k, []string{leaf.label, fmt.Sprint("leaf EKUs ", leafEKU), fmt.Sprint("config ext_key_usages ", names)}, o, 1) {
+				e.out.Count("class:any-eku-list-rejects")
+			}
+			e.out.Count("mode:any-eku-via-config")
+		}
+	}
+}
+
+// c02WallClock: the clock option left at its zero value, as every server instance has it (setUpLogInfo and the submission
+// distributor pass time.Time{}): "expired" is then relative to the wall clock.  Leaves whose NotAfter is a day (an hour, a
+// year) before / after the wall clock, every combination of reject_expired / reject_unexpired, through ValidateChain with
+// directly built options and through the configuration path, at the three endpoints.
+func c02WallClock(e *c02Env) {
+	keys := vKeys()
+	root := vIssue(vSpec{cn: "wall root", key: keys[2], isCA: true, keyUsage: vCAUsage})
+	inter := vIssue(vSpec{cn: "wall inter", key: keys[3], issuer: root, isCA: true, keyUsage: vCAUsage})
+	wall := time.Now().UTC().Truncate(time.Second)
+	for i, d := range []time.Duration{-24 * time.Hour, 24 * time.Hour, -time.Hour, time.Hour, -366 * 24 * time.Hour, 366 * 24 * time.Hour} {
+		for _, pre := range []bool{false, true} {
+			sp := vSpec{cn: fmt.Sprintf("wall leaf %d %v (NotAfter = wall clock %+v)", i, pre, d), key: keys[11], issuer: inter, keyUsage: stdx509.KeyUsageDigitalSignature,
+				notBefore: wall.Add(-1000 * 24 * time.Hour), notAfter: wall.Add(d)}
+			ep := 1
+			if pre {
+				sp.poison, ep = vPoisonOK, 2
+			}
+			leaf := vIssue(sp)
+			k := c02NewCase([]*vCert{root}, [][]byte{leaf.der, inter.der})
+			for bits := 0; bits < 4; bits++ {
+				for _, via := range []bool{false, true} {
+					o := c02Opts{rejExp: bits&1 != 0, rejUnexp: bits&2 != 0, viaConfig: via}
+					labels := []string{leaf.label, inter.label, fmt.Sprintf("zero clock option, via config %v", via)}
+					e.eval(k, labels, o, 0)
+					ok := e.eval(k, labels, o, ep)
+					if via {
+						e.evalHTTP(k, labels, o, ep, ok)
+					}
+					e.out.Count("mode:wall-clock-expiry")
+				}
+			}
 		}
 	}
 }
